@@ -459,6 +459,106 @@ func genHierarchy(r *RNG) *kCase {
 			emit(fmt.Sprintf("y%d = %s.new%s", ci, c.qual(), newArgs(in[0]+in[1]+1)))
 		}
 	}
+	// ----- a class several namespaces deep whose superclass lives in an enclosing
+	// (not the innermost, not the outermost) namespace, referenced by short name
+	if r.Chance(1, 3) {
+		depth := 2 + r.Intn(3) // namespaces around the subclass
+		superAt := r.Intn(depth)
+		mods := []string{"Zoo", "Mid", "Pets", "Deep"}[:depth]
+		c1, c2, c3 := Pick(r, scal), Pick(r, scal), Pick(r, scal)
+		ind := ""
+		for d, mn := range mods {
+			emit(ind + "module " + mn)
+			ind += "  "
+			if d == superAt {
+				emit(ind + "class Animal")
+				emit(ind + "  def speak")
+				emit(ind + "    " + nLit(c1))
+				emit(ind + "  end")
+				emit(ind + "  def self.kingdom")
+				emit(ind + "    " + nLit(c2))
+				emit(ind + "  end")
+				emit(ind + "end")
+			}
+		}
+		emit(ind + "class Dog < Animal")
+		emit(ind + "  def fetch")
+		emit(ind + "    " + nLit(c3))
+		emit(ind + "  end")
+		emit(ind + "end")
+		emit(ind + "class Puppy < Dog")
+		emit(ind + "end")
+		for d := depth - 1; d >= 0; d-- {
+			emit(strings.Repeat("  ", d) + "end")
+		}
+		q := strings.Join(mods, "::")
+		f := fmt.Sprintf("deep-namespace:ns%d-super%d", depth, superAt)
+		probe(q+"::Dog.new.speak", c1, "Dog inherits speak from Animal in an enclosing namespace", f)
+		probe(q+"::Dog.kingdom", c2, "Dog inherits the class method kingdom", f)
+		probe(q+"::Puppy.new.speak", c1, "Puppy inherits speak through Dog", f)
+		probe(q+"::Puppy.new.fetch", c3, "Puppy inherits fetch from Dog", f)
+		probe(q+"::Puppy.new.meow", "", "nothing in the ancestry defines meow", f)
+	}
+	// ----- a module of the enclosing namespace included / extended by short name,
+	// and implicit calls of its methods from instance and class methods
+	if r.Chance(1, 3) {
+		ch := Pick(r, scal)
+		emit("module Outer")
+		emit("  module Helper")
+		emit("    def help")
+		emit("      " + nLit(ch))
+		emit("    end")
+		emit("  end")
+		emit("  class User")
+		emit("    include Helper")
+		emit("    def use")
+		kc.Expects = append(kc.Expects, kExpect{Row: row(), Kind: "clean", What: "implicit call of an included module's method from an instance method", Feat: "module-implicit:include"})
+		emit("      help")
+		emit("    end")
+		emit("  end")
+		emit("  class Tool")
+		emit("    extend Helper")
+		emit("    def self.build")
+		kc.Expects = append(kc.Expects, kExpect{Row: row(), Kind: "clean", What: "implicit call of an extended module's method from a class method", Feat: "module-implicit:extend"})
+		emit("      help")
+		emit("    end")
+		emit("  end")
+		emit("end")
+		probe("Outer::User.new.help", ch, "User includes Helper of the enclosing namespace", "module-short-name:include")
+		probe("Outer::User.new.use", ch, "use returns what help returns", "module-implicit:include")
+		probe("Outer::Tool.help", ch, "Tool extends Helper of the enclosing namespace", "module-short-name:extend")
+		probe("Outer::Tool.build", ch, "build returns what help returns", "module-implicit:extend")
+		probe("Outer::Tool.new.help", "", "an extended module gives no instance methods", "module-short-name:extend")
+	}
+	// ----- a protected method that comes from an included module
+	if r.Chance(1, 3) {
+		cq := Pick(r, scal)
+		emit("module Ranked")
+		emit("  protected")
+		emit("  def rank")
+		emit("    " + nLit(cq))
+		emit("  end")
+		emit("end")
+		emit("class Officer")
+		emit("  include Ranked")
+		emit("  def same_rank(other)")
+		kc.Expects = append(kc.Expects, kExpect{Row: row(), Kind: "clean", What: "protected method of an included module called on another instance inside the including class", Feat: "protected-inside:module"})
+		emit("    other.rank")
+		emit("  end")
+		emit("end")
+		emit("class Captain < Officer")
+		emit("  def senior(other)")
+		kc.Expects = append(kc.Expects, kExpect{Row: row(), Kind: "clean", What: "protected method of a module included by the superclass, called in a subclass", Feat: "protected-inside:module-subclass"})
+		emit("    other.rank")
+		emit("  end")
+		emit("end")
+		emit("off = Officer.new")
+		emit("cap = Captain.new")
+		probe("off.same_rank(off)", cq, "same_rank returns what the protected rank returns", "protected-inside:module")
+		probe("cap.senior(cap)", cq, "senior returns what the protected rank returns", "protected-inside:module-subclass")
+		kc.Expects = append(kc.Expects, kExpect{Row: row(), Kind: "error", What: "protected method rank called from outside the hierarchy", Feat: "protected-outside:module"})
+		emit("off.rank")
+	}
 	kc.Source = strings.Join(lines, "\n") + "\n"
 	return kc
 }
